@@ -19,6 +19,16 @@ func h1(v any) string { return h2(v) }
 
 func show(name, got string) { fmt.Printf("%s: %s\n", name, got) }
 
+// wire is reflected on in one function and converted to another named type in a
+// different one; the conversion target must keep its name as well, whichever
+// function the analysis happens to visit first.
+type wire struct{ WireA, WireB int }
+type converted wire
+
+func reflectsWire() string    { return reflect.TypeOf(wire{}).Name() }
+func convertsWire(w wire) any { return converted(w) }
+func nameOf(v any) string     { return fmt.Sprintf("%T", v) }
+
 func main() {
 	show("direct", fmt.Sprint(reflect.TypeOf(lib.Direct{}).Name(), reflect.TypeOf(lib.Direct{}).Field(1).Name))
 	show("one-helper", util.One(lib.ViaOne{}))
@@ -45,6 +55,8 @@ func main() {
 	show("store-first", reflect.TypeOf(*p).Name())
 	*p = lib.Stored{StoredA: 1}
 	show("after-store", h1(lib.AfterStore{AfterA: "z"}))
+
+	show("reflected-then-converted", reflectsWire()+"/"+nameOf(convertsWire(wire{WireA: 1})))
 
 	// A value returned by a call and passed straight to a reflecting API.
 	show("call-result", util.JSON(lib.NewRet()))
